@@ -1,3 +1,4 @@
+import H2.Proofs.ServerHdrLimitFull
 import H2.Proofs.Slots
 import H2.Proofs.Limits
 /-!
@@ -122,4 +123,115 @@ example : (Limits.run (Limits.init 10 100) [.opened 1, .hdrBytes 1 90, .data 1 6
 
 end Limits
 
+end H2.Props.C13
+
+
+/-! ### the same bounds, proved directly on the FULL server model
+
+NEEDS `import H2.Proofs.ServerHdrLimitFull` (which imports `H2.Proofs.ServerSlotsFull`) among the imports at the top of
+this file.
+
+Everything below is about `H2.Server.step` itself (`H2/Server/Model.lean`, the model the driver runs against the real
+`serverConn`), for EVERY configuration `cfg` and EVERY event list `evs` (octets from the peer cut anywhere, handler
+completions, disconnects, the idle timer): `run cfg evs` is the state after the events, `runOuts cfg evs` everything
+written and dispatched. No abstract model and no lockstep comparison stands between these statements and the model
+the correspondence check exercises. Proofs: `H2/Proofs/ServerSlotsFull.lean` and `H2/Proofs/ServerHdrLimitFull.lean`
+(invariants of `step`, preserved by every function of the model). -/
+namespace H2.Props.C13
+section FullModel
+open H2.Server
+
+/-- **open_slots_are_table_plus_abandoned** (full model, run level): in every reachable state `openStreams` equals the
+number of table entries holding a slot (opened by HEADERS) plus the number of abandoned streams (closed while their
+handler runs); all table entries and all abandoned streams do hold a slot; every abandoned stream's handler is still
+running. -/
+theorem Full.open_slots_are_table_plus_abandoned (cfg : Cfg) (evs : List Event) :
+    (run cfg evs).1.openStreams = ((slotHolders (run cfg evs).1.strms + (run cfg evs).1.abandoned.length : Nat) : Int) ∧
+    slotHolders (run cfg evs).1.strms = (run cfg evs).1.strms.length ∧
+    slotHolders (run cfg evs).1.abandoned = (run cfg evs).1.abandoned.length ∧
+    (∀ a ∈ (run cfg evs).1.abandoned, a.handlerRunning = true) :=
+  H2.Server.open_slots_are_table_plus_abandoned cfg evs
+
+/-- **open_slots_within_limit** (full model, run level): `0 ≤ openStreams ≤ MaxConcurrentStreams`, so the table and the
+abandoned streams together are at most MaxConcurrentStreams stream objects (a HEADERS frame for a new stream is refused
+while `openStreams ≥ MaxConcurrentStreams`). -/
+theorem Full.open_slots_within_limit (cfg : Cfg) (evs : List Event) :
+    0 ≤ (run cfg evs).1.openStreams ∧ (run cfg evs).1.openStreams ≤ (cfg.maxStreams : Int) ∧
+    (run cfg evs).1.strms.length + (run cfg evs).1.abandoned.length ≤ cfg.maxStreams :=
+  H2.Server.open_slots_within_limit cfg evs
+
+/-- **handlers_within_limit** (full model, run level): handlers running for the connection (table entries with
+`handlerRunning`, plus abandoned streams) ≤ `openStreams` ≤ MaxConcurrentStreams. HEADERS + RST_STREAM buys the peer no
+extra handler. -/
+theorem Full.handlers_within_limit (cfg : Cfg) (evs : List Event) :
+    (runningHandlers (run cfg evs).1 : Int) ≤ (run cfg evs).1.openStreams ∧
+    (run cfg evs).1.openStreams ≤ (cfg.maxStreams : Int) ∧
+    runningHandlers (run cfg evs).1 ≤ cfg.maxStreams :=
+  H2.Server.handlers_within_limit cfg evs
+
+/-- **ring_bounded** (full model, run level): the ring of recently closed ids and the list of streams this side reset
+never hold more than `closedStrmsCap` = 256 entries each. -/
+theorem Full.ring_bounded (cfg : Cfg) (evs : List Event) :
+    (run cfg evs).1.ring.length ≤ 256 ∧ (run cfg evs).1.resetByUs.length ≤ 256 :=
+  H2.Server.ring_bounded cfg evs
+
+/-- (full model, run level) stream objects are never aliased: table and abandoned streams are pairwise distinct
+objects, and the table holds each stream id once — `Streams.Del(id)` removes the stream being closed, and a handler
+reporting back for an abandoned stream gives back exactly one slot. -/
+theorem Full.stream_objects_distinct (cfg : Cfg) (evs : List Event) :
+    (((run cfg evs).1.strms ++ (run cfg evs).1.abandoned).map (·.uid)).Nodup ∧
+    ((run cfg evs).1.strms.map (·.id)).Nodup :=
+  H2.Server.stream_objects_distinct cfg evs
+
+/-- **dispatched_body_within_limit** (full model, run level): with MaxRequestBodySize set, every dispatch record of
+every run carries a body of at most that many octets. -/
+theorem Full.dispatched_body_within_limit (cfg : Cfg) (evs : List Event) (sid : Nat) (m p a : Bytes)
+    (fields : List (Bytes × Bytes)) (body : Digest)
+    (h : Out.dispatch sid m p a fields body ∈ runOuts cfg evs) (hpos : cfg.maxBody > 0) : body.len ≤ cfg.maxBody :=
+  H2.Server.dispatched_body_within_limit cfg evs sid m p a fields body h hpos
+
+/-- (full model, run level) … and at every moment the body buffered for any stream of the table is within the limit
+and no longer than the DATA octets received for it. -/
+theorem Full.buffered_body_within_limit (cfg : Cfg) (evs : List Event) (hpos : cfg.maxBody > 0) :
+    ∀ st ∈ (run cfg evs).1.strms, st.body.len ≤ cfg.maxBody ∧ st.body.len ≤ st.recvBody :=
+  H2.Server.buffered_body_within_limit cfg evs hpos
+
+/-- **handler_headers_within_limit** (full model, run level): with MaxHeaderListSize set, in every reachable state every
+stream whose handler is running — in the table or abandoned — has a header list (RFC 7540 §6.5.2 size, all its header
+blocks together) of at most that size; in the table such a stream has its header section finished and is at least
+half-closed, so no further header block is ever decoded for it; and every stream of the table that has not been closed
+is within the limit at every moment (the header-list part of the per-connection memory bound). -/
+theorem Full.handler_headers_within_limit (cfg : Cfg) (evs : List Event) (hpos : cfg.maxHeaderList > 0) :
+    (∀ st ∈ (run cfg evs).1.strms, st.handlerRunning = true →
+      (st.hdrListSize : Int) ≤ cfg.maxHeaderList ∧ st.headersFinished = true ∧ st.state.rank ≥ StState.halfClosed.rank) ∧
+    (∀ a ∈ (run cfg evs).1.abandoned, (a.hdrListSize : Int) ≤ cfg.maxHeaderList) ∧
+    (∀ st ∈ (run cfg evs).1.strms, st.state ≠ .closed → (st.hdrListSize : Int) ≤ cfg.maxHeaderList) :=
+  H2.Server.handler_headers_within_limit cfg evs hpos
+
+/-- (full model, step level) a header frame that `handleHeaderFrame` accepts without error leaves the stream's running
+header-list size within the limit, provided it was within it before: the field loop checks before it adds. -/
+theorem Full.accepted_header_frame_within_limit (s : Srv) (st : Strm) (fr : H2.Frame.Frame) (hpos : s.cfg.maxHeaderList > 0)
+    (h0 : (st.hdrListSize : Int) ≤ s.cfg.maxHeaderList) (hn : (handleHeaderFrame s st fr).2.2 = none) :
+    ((handleHeaderFrame s st fr).2.1.hdrListSize : Int) ≤ s.cfg.maxHeaderList :=
+  H2.Server.handleHeaderFrame_limit s st fr hpos h0 hn
+
+/-! non-vacuity on the full model (`Ex.slotRun`, MaxConcurrentStreams = 1: HEADERS(1) dispatched, HEADERS(3) refused,
+the peer resets 1 while its handler runs — abandoned, slot kept — HEADERS(5) still refused; after the handler of 1
+reports back HEADERS(7) is accepted. `Ex.bodyRun`, MaxRequestBodySize = 2: two octets are handed over, three are not).
+The same operations replayed on the real server give the same lines (REPORT). -/
+example : (run { maxStreams := 1 } Ex.slotRun).1.openStreams = 1 ∧ (run { maxStreams := 1 } Ex.slotRun).1.strms.length = 0 ∧
+    (run { maxStreams := 1 } Ex.slotRun).1.abandoned.length = 1 ∧ runningHandlers (run { maxStreams := 1 } Ex.slotRun).1 = 1 := by
+  decide +kernel
+example : fm Ex.tag (runOuts { maxStreams := 1 } Ex.slotRun) = [("dispatch", 1), ("rst", 3), ("rst", 5)] := by decide +kernel
+example : dispatchedIds (runOuts { maxStreams := 1 } (Ex.slotRun ++ [.done 1 {}, Ex.hdrs 7])) = [1, 7] := by decide +kernel
+example : Ex.bodyLens (runOuts { maxBody := 2 } Ex.bodyRun) = [(1, 2)] ∧
+    fm Ex.tag (runOuts { maxBody := 2 } Ex.bodyRun) = [("dispatch", 1), ("rst", 3)] := by decide +kernel
+
+/-! `Ex.hdrRun`, MaxHeaderListSize = 200: GET / http (123 octets) is dispatched; the same with two more fields (243 octets)
+draws GOAWAY(ENHANCE_YOUR_CALM) and is not -/
+example : fm Ex.tag (runOuts { maxHeaderList := 200 } Ex.hdrRun) = [("dispatch", 1), ("goaway", 3)] := by decide +kernel
+example : (run { maxHeaderList := 200 } Ex.hdrRun).1.strms.map (fun st => (st.id, st.hdrListSize, st.handlerRunning)) =
+    [(1, 123, true), (3, 243, false)] := by decide +kernel
+
+end FullModel
 end H2.Props.C13
